@@ -9,10 +9,13 @@ package apworld
 import (
 	"bytes"
 	"math/rand"
+	"strings"
 	"time"
 
+	"verif/ref/der"
 	"verif/ref/keytabfmt"
 	"verif/ref/krbmsg"
+	rpac "verif/ref/pac"
 	"verif/ref/rcrypto"
 )
 
@@ -167,6 +170,10 @@ type Case struct {
 	CTime         time.Duration `json:"ctime_off"` // offset from T0, microsecond resolution
 	SeqNum        int64         `json:"seq"`
 	// presentation
+	// TktAppendClear: a clear-text EncTicketPart-shaped SEQUENCE (client "administrator", valid for ten years, a
+	// session key of the sender's choosing under which the authenticator is sealed) is appended to the Ticket
+	// SEQUENCE after the enc-part, and the enc-part ciphertext is random: nothing authentic is left in the request
+	TktAppendClear bool `json:"tkt_cleartext_encpart_appended,omitempty"`
 	// RawETP / RawAuth, when set, are sealed in place of the encoded EncTicketPart / Authenticator (C04: arbitrary
 	// plaintexts under genuine keys)
 	RawETP  []byte `json:"-"`
@@ -273,6 +280,23 @@ func (w *World) Mint(c Case) (Minted, error) {
 		tkt.Enc.KVNO = krbmsg.I64(int64(c.TktKVNO))
 	}
 	m.Ticket = tkt.Encode()
+	if c.TktAppendClear {
+		forged := krbmsg.EncTicketPart{Flags: c.Flags, Key: krbmsg.EncryptionKey{Type: c.Etype, Value: m.SessionKey}, CRealm: c.CRealm,
+			CName: krbmsg.PrincipalName{Type: 1, Names: []string{"administrator"}}, Transited: krbmsg.Transited{Type: 0, Contents: []byte{}},
+			AuthTime: at, EndTime: T0.Add(10 * 365 * 24 * time.Hour)}
+		fb := forged.Encode()
+		if n, err := der.Parse(fb); err == nil && len(n.Children) == 1 {
+			fb = n.Children[0].Full // the SEQUENCE inside the APPLICATION 3 wrapper
+		}
+		garbage := make([]byte, len(tct))
+		w.rnd.Read(garbage)
+		tkt.Enc.Cipher = garbage
+		m.TicketCT = garbage
+		if n, err := der.Parse(tkt.Encode()); err == nil && len(n.Children) == 1 {
+			inner := append(append([]byte{}, n.Children[0].Content...), fb...)
+			m.Ticket = der.Application(1, der.TLV(der.Universal, true, der.TagSequence, inner))
+		}
+	}
 	ct := T0.Add(c.CTime)
 	sec := ct.Truncate(time.Second)
 	if sec.After(ct) {
@@ -345,7 +369,7 @@ func (w *World) Expect(c Case, s Settings, replayed bool) Verdict {
 	if !ok {
 		return rej("no-keytab-key")
 	}
-	if !bytes.Equal(key, w.ticketKeyStable(c)) || c.TktLabel != c.Etype || c.TktUsage != 2 || c.TktMut.Kind != "" {
+	if !bytes.Equal(key, w.ticketKeyStable(c)) || c.TktLabel != c.Etype || c.TktUsage != 2 || c.TktMut.Kind != "" || c.TktAppendClear {
 		return rej("ticket-does-not-decrypt")
 	}
 	// 2. validity extended by the skew, INVALID flag
@@ -391,6 +415,9 @@ func (w *World) Expect(c Case, s Settings, replayed bool) Verdict {
 	}
 	if replayed {
 		return rej("replay")
+	}
+	if s.DecodePAC && strings.HasPrefix(c.AuthzLabel, "pac-bad:") {
+		return rej("pac-fails-verification")
 	}
 	if len(c.CName) == 0 {
 		v.Judged, v.Why = false, "empty client name in ticket and authenticator (no KDC issues it; statement silent)"
@@ -492,7 +519,32 @@ func Catalogue(skew time.Duration) []Defect {
 		{"caddr-other-and-matching", func(c *Case) { c.CAddr = []krbmsg.HostAddress{AddrOther, AddrMatch} }},
 		{"caddr-empty-list", func(c *Case) { c.CAddr = []krbmsg.HostAddress{} }},
 		{"replay", func(c *Case) { c.Twice = true }},
+		{"tkt-cleartext-encpart-appended", func(c *Case) { c.TktAppendClear = true; c.ACName = []string{"administrator"} }},
+		{"pac-undecodable-4-bytes", func(c *Case) { withPAC(c, "pac-bad:4-bytes", []byte{1, 0, 0, 0}) }},
+		{"pac-empty", func(c *Case) { withPAC(c, "pac-bad:empty", []byte{}) }},
+		{"pac-buffer-count-exceeds-data", func(c *Case) {
+			withPAC(c, "pac-bad:count", []byte{0xff, 0xff, 0xff, 0x00, 0, 0, 0, 0, 1, 0, 0, 0, 4, 0, 0, 0, 0x18, 0, 0, 0, 0, 0, 0, 0, 1, 2, 3, 4})
+		}},
+		{"pac-without-signatures", func(c *Case) {
+			b, _ := rpac.Assemble([]rpac.Buffer{{Type: rpac.TypeClientInfo, Data: rpac.ClientInfo(rpac.FileTime(T0), "user1")}})
+			withPAC(c, "pac-bad:no-signature-buffers", b)
+		}},
+		{"pac-unsigned", func(c *Case) {
+			b, _ := rpac.Assemble([]rpac.Buffer{{Type: rpac.TypeClientInfo, Data: rpac.ClientInfo(rpac.FileTime(T0), "user1")},
+				{Type: rpac.TypeServerSig, Data: rpac.SigBuffer(16, nil)}, {Type: rpac.TypeKDCSig, Data: rpac.SigBuffer(16, nil)}})
+			withPAC(c, "pac-bad:zero-signature", b)
+		}},
+		{"authz-if-relevant-without-pac", func(c *Case) {
+			c.AuthzData = []krbmsg.AuthDataEntry{{Type: 1, Data: krbmsg.EncodeAuthData([]krbmsg.AuthDataEntry{{Type: 141, Data: []byte("x")}})}}
+			c.AuthzLabel = "no-pac"
+		}},
 	}
+}
+
+// withPAC puts the bytes into the ticket as AD-IF-RELEVANT { AD-WIN2K-PAC }.
+func withPAC(c *Case, label string, pacBytes []byte) {
+	c.AuthzData = []krbmsg.AuthDataEntry{{Type: 1, Data: krbmsg.EncodeAuthData([]krbmsg.AuthDataEntry{{Type: 128, Data: pacBytes}})}}
+	c.AuthzLabel = label
 }
 
 func otherLabel(et int32) int32 {
